@@ -33,6 +33,14 @@ def decode(o):
     return [(dec(a), int(b), dec(c)) for a, b, c in items]
 
 
+EXTERN_PROGRAMS = [
+    'extern "go" "strings" "ToUpper" upper(s: string) -> string\nextern "go" "path/filepath" "Base" base_name(p: string) -> string\nextern "go" "net/url" "QueryEscape" esc(s: string) -> string\nfn main() { string_println(upper("a") + base_name("x/y") + esc("p q")) }\n',
+    'extern "go" "path/filepath" "Ext" ext_of(p: string) -> string\nfn main() { let e = ext_of("a.txt"); string_println(e) }\n',
+    'extern "go" "math/bits" "OnesCount32" ones(x: uint32) -> int32\nextern "go" "strings" "Repeat" rep(s: string, n: int32) -> string\nfn helper(n: int32) -> string { rep("ab", n) }\nfn main() { let _ = string_println(helper(2)); string_println(int32_to_string(ones(7u32))) }\n',
+    'extern type Dur\nextern "go" "time" duration(n: int32) -> Dur\nextern "go" "os/signal" "Ignore" ignore_sig() -> unit\nfn main() { let d = duration(5); let _ = ignore_sig(); string_println("ok") }\n',
+]
+
+
 def long_line_programs(rng, n):
     out = []
     for _ in range(n):
@@ -60,9 +68,11 @@ def check(run):
     try:
         q = run.tier == "quick"
         srcs = [genprog.G(rng, fail_rate=0.02).program(depth=rng.choice([2, 3])) for _ in range(40 if q else 700)]
-        srcs += [genprog.closure_program(run.sub_rng("c02-cl")) for _ in range(20 if q else 300)]
+        clrng = run.sub_rng("c02-cl")
+        srcs += [genprog.closure_program(clrng) for _ in range(20 if q else 300)]
         srcs += [genericgen.Gen(rng).program(n_stmts=4, depth=2)[0] for _ in range(15 if q else 250)]
         srcs += long_line_programs(rng, 8 if q else 80)
+        srcs += EXTERN_PROGRAMS
         import c18 as c18mod
 
         for _ in range(10 if q else 150):
